@@ -77,6 +77,9 @@ type FileSpec struct {
 	CreateErr string `json:"create_err,omitempty"`
 	// RenameErr: os.Rename onto this path fails with the errno (EXDEV, EACCES).
 	RenameErr string `json:"rename_err,omitempty"`
+	// SymlinkTo: the path is a symbolic link to that path (followed by Open,
+	// OpenFile, Stat; refused with ELOOP under O_NOFOLLOW; Lstat sees the link).
+	SymlinkTo string `json:"symlink_to,omitempty"`
 	// WritePlan: faults of the write side when the path is created/opened for writing.
 	WritePlan *WritePlan `json:"write_plan,omitempty"`
 	// Pipe: the path is a FIFO (process substitution): Stat reports size 0 and
